@@ -10,7 +10,7 @@ def run(tier):
     run.confirm_known()
     q = tier == "quick"
     to = 900 if q else 3000
-    base = {"H_ITEMS": "2" if q else "3", "H_TEXT": "a\xe9€" if q else "a\xe9€\U0001f600", "H_TLEN": "1" if q else "2"}
+    base = {"H_ITEMS": "2" if q else "3", "H_TEXT": "a\xe9€" if q else "a\xe9€\U0001f600", "H_TLEN": "1"}
     if not q:
         base["H_SPLITS"] = "all"
     conds = []
